@@ -108,6 +108,24 @@ def sweep(ctx, n):
                     if not np.allclose(full[j], step, rtol=1e-9, atol=1e-9 * sc):
                         bad(f"interface:{cls}:sensor-path:{kind}", f"sensor with a {kind} path differs at step {j} from a static sensor at that pose", {"class": cls, "field": X, "kind": kind})
                         break
+            # a collection and one of its own members listed again in the same call (comparing a part with the whole), in either
+            # order: every entry equals what the entry gives when asked alone
+            if i % 3 == 1:
+                other = make(CLASSES[(i + 5) % len(CLASSES)], nps, scale=lsc)
+                other.position = nps.uniform(-1, 1, 3) * lsc
+                member = src.copy()
+                assembly = magpy.Collection(member, other) if rng.random() < 0.5 else magpy.Collection(other, member)
+                part = rng.choice([member, other])
+                entries = [assembly, part] if rng.random() < 0.6 else [part, assembly]
+                got = get(entries, obs, squeeze=False)
+                want = [get(e_, obs, squeeze=False)[0] for e_ in entries]
+                forms["part-and-whole"] = forms.get("part-and-whole", 0) + 1
+                scw = max(float(np.max(np.abs(w_))) for w_ in want) + field_scale(src) * 1e-9
+                for j_, w_ in enumerate(want):
+                    if not np.allclose(got[j_], w_, rtol=1e-9, atol=1e-9 * scw):
+                        bad(f"interface:{cls}:part-and-whole", f"get{X}([{', '.join(type(e_).__name__ for e_ in entries)}], obs): entry {j_} differs from the same entry asked alone "
+                            "(a collection listed together with one of its own members)", {"class": cls, "field": X, "entry": j_, "order": [type(e_).__name__ for e_ in entries]})
+                        break
             # the SAME object asked again after it was edited (attribute assignment; for a mesh: faces repaired by
             # reorient_faces() after a first evaluation): every object-oriented form must follow the object's current
             # attributes, i.e. agree with the functional interface fed with the values read back from the object
